@@ -103,6 +103,10 @@ def constants():
         c.update(_parallel_literals())
     except Exception:
         pass
+    try:    # C08/C29: struct sizes as the real fmtsize sees them, map-size rounding, FIXED_BASE (probed on the real collect)
+        c.update(_arraymap_literals())
+    except Exception:
+        pass
     return c
 
 
@@ -392,3 +396,26 @@ def _parallel_literals():
         raise ValueError("unexpected FMMULock geometry")
     return {"etLo": int(rec["et"][0]), "etHi": int(rec["et"][1]), "fmSize": int(size), "fmProcs": int(rec["fm"][1]),
             "fmWindow": int(base5 // 5), "fmGroup": int(step)}
+
+
+def _arraymap_literals():
+    """C08/C29: sizes of the single struct letters as the real `fmtsize` reports them (order bBhHiIqQ),
+    the size of the fixed-point format `x`, FIXED_BASE, and the granularity `ArrayMap.collect` rounds the
+    map size up to (probed: a map with one 1-byte variable, and one with a 9-byte one)."""
+    from ebpfcat import ebpf as eb
+    from ebpfcat.arraymap import ArrayMap
+    sizes = [int(eb.fmtsize(ch)) for ch in "bBhHiIqQ"]
+
+    def probe(fmt):
+        m = ArrayMap()
+        cls = type("P", (eb.SubProgram,), {"v": m.globalVar(fmt)})
+        holder = type("H", (), {"subprograms": []})()
+        prog = cls()
+        holder.subprograms = [prog]
+        holder.__class__ = type("H2", (), {})
+        return int(m.collect(holder))
+    a, b = probe("B"), probe("9B")
+    if a <= 0 or b != 2 * a or a < 9 - a:
+        raise ValueError("unexpected ArrayMap.collect rounding")
+    return {"arraymap_fmtsizes": sizes, "arraymap_fmtsize_x": int(eb.fmtsize("x")),
+            "arraymap_FIXED_BASE": int(eb.Expression.FIXED_BASE), "arraymap_align": a}
